@@ -77,6 +77,10 @@ def corpus_chars():
             out.append((b"?" + bytes([c]) + suffix, el))
             out.append((b"?\\" + bytes([c]) + suffix, el))
         out.append((b"[?" + bytes([c]) + b" ?\\" + bytes([c]) + b"]", el))
+    for c2 in (0x80, 0xA0, 0xC3, 0xCE, 0xE2, 0xFF):
+        for head in (b"#\\a", b"#\\x41", b"#\\space", b"#\\x", b"#\\(", b"#\\\xce\xbb"):
+            out.append((head + bytes([c2]), r6))
+            out.append((b"(" + head + bytes([c2]) + b"\xbb)", r6))
     for nm in list(R.R6RS_CHAR_NAMES) + [b"Space", b"spacex", b"nu", b"nulx", b"xx", b"ab", b"altmode", b"rubout", b"null"]:
         for suffix in (b" ", b")", b"(", b"\"a\"", b";c", b"#"):
             out.append((b"#\\" + nm + suffix, r6))
@@ -97,7 +101,10 @@ def corpus_chars():
         out.append((b"?\\%o" % n, el))
         out.append((b"?\\%o " % n, el))
     for t in (b"#\\\xce\xbb", b"#\\\xce\xbbx", b"#\\\xce", b"#\\\xff", b"#\\\xf0\x9f\x98\x80", b"#\\\xf0\x9f\x98", b"?\xce\xbb", b"?\\\xce\xbb", b"?\xce",
-              b"?\\^a", b"?\\^Z", b"?\\^1", b"?\\^", b"?", b"?\\", b"#\\", b"#", b"?\\N{", b"?\\N{U+", b"?\\N{U+41", b"?\\N{LATIN}", b"?a?b", b"(?a . ?b)"):
+              b"?\\^a", b"?\\^Z", b"?\\^1", b"?\\^", b"?", b"?\\", b"#\\", b"#", b"?\\N{", b"?\\N{U+", b"?\\N{U+41", b"?\\N{LATIN}", b"?a?b", b"(?a . ?b)",
+              b"#\\\xc0\x80", b"#\\\xc1\x81", b"#\\\xc1\xbf", b"#\\\xc2\x80", b"#\\\xe0\x80\x80", b"#\\\xe0\x9f\xbf", b"#\\\xe0\xa0\x80", b"#\\\xed\xa0\x80",
+              b"#\\\xed\x9f\xbf", b"#\\\xf0\x80\x80\x80", b"#\\\xf0\x8f\xbf\xbf", b"#\\\xf0\x90\x80\x80", b"#\\\xf4\x8f\xbf\xbf", b"#\\\xf4\x90\x80\x80",
+              b"#\\\xf5\x80\x80\x80", b"#\\\xc2\x41", b"#\\\xe2\x82\x41", b"?\xc1\x81", b"?\xc0\x80", b"?\xed\xa0\x80", b"(#\\\xc1\x81)", b"?\\\xc1\x81"):
         out.append((t, r6))
         out.append((t, el))
     return out
@@ -142,7 +149,10 @@ def corpus_lists():
              b"(a . nil)", b"(nil . nil)", b"(nil)", b"(t . t)", b"#(nil t)", b"(a . #nil)", b"(#nil . a)", b"(a . ())", b"(() . ())", b"((a . b) . (c . d))",
              b"a b c", b"a ; c\n b", b"a)b", b"a]", b")", b"]", b"(a))", b"#;a", b"#|a|#", b" \t\r\n\x0c a", b"\x0ba", b"a\x0cb", b"(a\x0cb)", b"(a\x0bb)",
              b"(a\"s\"b)", b"(\"s\"\"t\")", b"(1\"s\")", b"(a(b)c)", b"(a[b]c)", b"(a#t)", b"(#t#f)", b"(#\\a#\\b)", b"(1 2 . 3)", b"(1 . 2 3)", b"(1 .2)",
-             b"(\"a\\n\" .x)", b"(#\\space .x)", b"(1.5 .x)", b"(-y .x)", b"(\"\\x41;\" .x: .y)", b"(1 2.)", b"(- . +)", b"(+ -)", b"#(+ -)", b"[+ -]", b"[a . b]", b"(a . [b])", b"[- ]", b"(... . ...)", b"(.. . a)", b"(a . . b)"]
+             b"(\"a\\n\" .x)", b"(#\\space .x)", b"(1.5 .x)", b"(-y .x)", b"(\"\\x41;\" .x: .y)", b"(1 2.)", b"(- . +)", b"(+ -)", b"#(+ -)", b"[+ -]", b"[a . b]", b"(a . [b])", b"[- ]", b"(... . ...)", b"(.. . a)", b"(a . . b)",
+             b'("a\\nb" :k "c\\td" :j)', b"(-y :k)", b"(.x :k)", b"(\xce\xbb :k)", b"(-1.5 :k)", b'("a\\nb" #:k)', b'("a\\nb" k:)', b'("q\\x41;" :k . :j)',
+             b'#("a\\nb" :k)', b"(+x :k -y :j)",
+             b"(a\tb c)", b"a\tb", b"(1\t2)", b"(a\rb)", b"(a\nb)", b"(:k\tv)", b"(x:\ty)", b"#(a\tb)"]
     osets = [DEFAULT, ELISP, P(k=7, nil=0, t=0, br=1), P(k=0, nil=2, t=0, br=0, dg=1), P(k=2, nil=2, br=1, ss=1, cs=1)]
     for t in texts:
         for o in osets:
@@ -166,6 +176,9 @@ def corpus_numbers():
              b"#d-12.5e-1", b"#d1e2", b"#x1e2", b"#xe", b"#xE1", b"#b1e1", b"1e0", b"1e00000000000000000000001", b"1e99999999999999999999", b"0e99999999999999999999",
              b"1e-99999999999999999999", b"0.0", b"-0.0", b"5e-324", b"2e-324", b"1.7976931348623157e308", b"1.7976931348623159e308",
              b"#x1" + b"0" * 256, b"#x" + b"f" * 300, b"#b1" + b"0" * 1024, b"#o1" + b"0" * 342, b"#x1" + b"0" * 255, b"#x-1" + b"0" * 260, b"#b" + b"1" * 1100,
+             b"-1e3", b"-5e22", b"-2e-7", b"+1e3", b"-1e16", b"-1E2", b"-12e1", b"-0e5", b"-1e400", b"-3e-400", b"-18446744073709551616e2", b"-1.5e3",
+             b"100000000000000000000e2147483647", b"0.01e-2147483647", b"1.5e2147483646", b"0.001e2147483647", b"123456789012345678901e-2147483648",
+             b"1e2147483647", b"0.1e-2147483647", b"1e-2147483648", b"1e2147483648", b"0.00e2147483647", b"12345678901234567890123e-2147483647",
              b"1e-616", b"1e-617", b"1e-1000", b"7.25e-620", b"-3e-99999", b"0e-700", b"1e-309", b"1e-325", b"123e-640",
              b"3.14159265358979323846264338328", b"6.0221407600000000000000000e23", b"184467440737095516150.5", b"0.10000000000000000000000000001",
              b"1.00000000000000000000000000000", b"99999999999999999999.99999999999999999999", b"18446744073709551615.5", b"1844674407370955161.65",
@@ -272,14 +285,187 @@ def check_print(fast=True, stop_after=3):
     return len(cases) + len(plain_vals), bad
 
 
+
+SPAN_CORPUS = [b"  abc  ", b"\n (a \"b\" #\\c)\n", b"'x y", b"#(1 2) ;c\n 3", b"(a . b)", b"#u8(1 2) z", b"`(,a ,@b) ", b"  \xce\xbb (\xce\xbb)",
+               b"'  x", b",@  (a  b)", b"`   x", b"( '  x  ,  y )", b"#( a   'b )", b"(a   .   b)", b"  ''  x",
+               b"(\"ab\ncd\" x)", b"#u8(1\n 2) y", b"(a\n \"s\nt\"\n b)", b"\"x\ny\nz\" w",
+               b"(a bb ccc dddd)", b"(a .b c)", b"(.a)", b"(x .yy . zz)", b"(a (b c) d)", b"(a (b . c) . d)", b"((a) (b) (c))", b"(1 . (2 . (3 . ())))",
+               b"#(a bb ccc)", b"#((a b) #(c d) e)", b"(a #(b c) . #(d))", b"[a bb . cc]", b"(a\n bb\n  ccc)", b"#(a\n bb\n  ccc)", b"(a 'b `(c ,d) . e)",
+               b"(\xce\xbb .\xce\xbc \xce\xbd)", b"(a ... b)", b"(#\\a #\\space \"s\" 1.5 #t . #nil)", b"x y z", b"(a)(b)", b"( a ( b ( c ( d ) ) ) )",
+               b"(a\tb c)", b"a\tb", b"(a\x0cb)", b"#u8(1 2 3)", b"  #u8(1 2 3) x", b"(a #vu8(1\n 2) b)", b"#(#u8() #u8(255))", b"\"a\\nb\" \"c\""]
+
+
+def _span_walk_check(text, sp, val):
+    """span node `sp` against value descriptor `val`: same shape, ordered, nested, and the covered text re-reads as the value"""
+    lines = text.split(b"\n")
+    starts = [0]
+    for ln_ in lines[:-1]:
+        starts.append(starts[-1] + len(ln_) + 1)
+
+    def off(p):
+        l, c = p
+        if not (1 <= l <= len(lines)) or c > len(lines[l - 1]):
+            return None
+        return starts[l - 1] + c
+
+    def rec(sp, val, lo, hi, shorthand_head=False):
+        a, b = off(sp["s"]), off(sp["e"])
+        if a is None or b is None:
+            return "span %r..%r lies outside the input" % (sp["s"], sp["e"])
+        if not (lo <= a < b <= hi):
+            return "span %r..%r is empty, outside its parent or overlaps its preceding sibling" % (sp["s"], sp["e"])
+        piece = text[a:b]
+        if shorthand_head:
+            if piece not in (b"'", b"`", b",", b",@"):
+                return "head span of a quote shorthand covers %r" % piece.decode("latin-1")
+            return None
+        one = RP.single(piece, "default", "slice")
+        if one != val:
+            return "span %r..%r covers %r which reads as %s, the sub-datum is %s" % (sp["s"], sp["e"], piece.decode("latin-1"), _short(one), _short(val))
+        kids = None
+        if val.get("t") == "list":
+            if "list" not in sp:
+                return "list value without list span information at %r" % (sp["s"],)
+            kids = list(sp["list"])
+            vals = list(val["v"])
+            has_tail = val.get("tail", {}).get("t") != "null"
+            if has_tail != (bool(kids) and "dot" in kids[-1]):
+                return "dotted tail and its span information disagree at %r" % (sp["s"],)
+            if has_tail:
+                kids[-1] = kids[-1]["dot"]
+                vals.append(val["tail"])
+        elif val.get("t") == "vector":
+            if "vec" not in sp:
+                return "vector value without vector span information at %r" % (sp["s"],)
+            kids, vals = list(sp["vec"]), list(val["v"])
+        elif "list" in sp or "vec" in sp:
+            return "atom with list / vector span information at %r" % (sp["s"],)
+        if kids is not None:
+            if len(kids) != len(vals):
+                return "%d element spans for %d elements at %r" % (len(kids), len(vals), sp["s"])
+            quote = piece[:1] in (b"'", b"`", b",") and val.get("t") == "list"
+            cur = a
+            for i, (k, v) in enumerate(zip(kids, vals)):
+                if "s" not in k:
+                    return "element without span at %r" % (sp["s"],)
+                why = rec(k, v, cur, b, shorthand_head=(quote and i == 0))
+                if why:
+                    return why
+                cur = off(k["e"])
+        return None
+    return rec(sp, val, 0, len(text))
+
+
+def check_spans(fast=True):
+    n, bad = 0, []
+    for text in SPAN_CORPUS:
+        per_src = {}
+        for src in ("slice", "reader", "str"):
+            sp = RP.parse(text, "default", src, "spans", fast)
+            dv = RP.parse(text, "default", src, "datum", fast)
+            n += 2
+            per_src[src] = sp
+            why = None
+            spans = sp.get("spans")
+            items = [i for i in dv.get("items", []) if "t" in i]
+            if spans is None or len([x for x in spans if "s" in x]) != len(items):
+                why = "the span walk yields %r for %d items" % (_short(sp), len(items))
+            else:
+                lo = 0
+                for s_, v in zip([x for x in spans if "s" in x], items):
+                    why = _span_walk_check(text, s_, v)
+                    if why:
+                        break
+            if why is None and sp != per_src["slice"]:
+                why = "spans differ between the slice and the %s source" % src
+            if why:
+                bad.append({"input_hex": text.hex(), "input": text.decode("latin-1"), "opts": "default", "src": src, "api": "spans", "fast": fast,
+                            "expected": "spans delimiting exactly each sub-datum", "observed": why, "why": why})
+                return n, bad
+    return n, bad
+
+
+LOC_BAD = [b"#nix", b"#vu9(1)", b"1e+x", b"1e", b"1e400", b"-1e400", b"#\\foo", b"\"\\q\"", b"#xg", b")", b"]", b"#u8(256)", b"(a . )", b"(a . b c)", b"#", b"#tx",
+           b"\"abc", b"(a b", b"#(a", b"'", b"#\\x110000", b"\"\\x110000;\"", b"1.5.6", b"#b12", b"(a]", b"#u8(1 a)", b"123456789012345678901234567890e999", b"#d1e400",
+           b"#:", b"1e99999999999", b"(1 . 2 . 3)", b"\xff", b"#\\\xff", b"\"\xc3\""]
+LOC_CTX = [(b"", b""), (b"\n", b""), (b"(1 2 3\n ", b")"), (b"a\n\n  ", b""), (b"\"s\nt\" ", b""), (b";c\n", b" x"), (b"\xce\xbb\n\xce\xbb ", b""),
+           (b"(a\r\n(b\n", b"))"), (b"\n\n\n\n\n\n\n\n\n\n\n\n", b"\n")]
+
+
+def check_locations(fast=True):
+    """C19 location clause as an oracle of its own (no reference involved): every syntax / EOF error of a malformed input names a
+    line in 1..=lines+1 and a column <= length of that line + 1; all three sources."""
+    cases = [(pre + tok + post, DEFAULT) for tok in LOC_BAD for pre, post in LOC_CTX]
+    n, bad = 0, []
+    for src in ("slice", "reader", "str"):
+        idx = [i for i, (d, o) in enumerate(cases) if src != "str" or is_utf8(d)]
+        sub = [(cases[i][0], cases[i][1].s()) for i in idx]
+        for api in ("single", "value"):
+            nat = RP.parse_batch(sub, src, api, fast)
+            n += len(sub)
+            for i, nv in zip(idx, nat):
+                d = cases[i][0]
+                errs = [nv["err"]] if "err" in nv else [it["err"] for it in nv.get("items", []) if "err" in it]
+                why = None
+                if "crash" in nv:
+                    why = "crash: %s" % nv["crash"]
+                lines = d.split(b"\n")
+                for e in errs:
+                    if e.get("cat") not in ("syntax", "eof") or "line" not in e:
+                        continue
+                    l, c = e["line"], e["col"]
+                    if not (1 <= l <= len(lines) + 1):
+                        why = "error line %d outside 1..=%d" % (l, len(lines) + 1)
+                    elif c > (len(lines[l - 1]) if l <= len(lines) else 0) + 1:
+                        why = "error at line %d column %d, but that line has %d bytes" % (l, c, len(lines[l - 1]) if l <= len(lines) else 0)
+                if why:
+                    bad.append({"input_hex": d.hex(), "input": d.decode("latin-1"), "opts": DEFAULT.s(), "src": src, "api": api, "fast": fast,
+                                "expected": "an in-bounds error location", "observed": why, "why": why})
+                    return n, bad
+    return n, bad
+
+
+ITER_TEXTS = [b"a b c", b"a ; comment\n(b c", b"1 \"abc", b"1 '", b"1 #(2", b"x #\\", b"foo ; one\n\tbar\r\n(1 2) \x0c \"baz\" ; done", b"", b"   ", b";c", b"a", b"(a) (b",
+              b"a ) b", b"(a . b) c d", b"#t #f #nil", b"\"s\" \"t\"", b"1 2 3 ", b"a]b", b"'a 'b", b"#u8(1) #u8(2", b"(1 2) \x0c \"baz\"", b"x\n\ny", b"a . b",
+              b"(a))", b"#\\a #\\b", b"1e 2", b"a #", b"a #;"]
+
+
+def check_iteration(fast=True):
+    """C12: the ways of iterating over a parser agree item by item (no reference involved): next_value loop, value_iter, datum_iter,
+    the Iterator impl of Parser, and next_value / next_datum loops that ask expect_end() before every item."""
+    n, bad = 0, []
+    cases = [(t, DEFAULT) for t in ITER_TEXTS] + [(t, ELISP) for t in ITER_TEXTS[:12]]
+    for src in ("slice", "reader", "str"):
+        idx = [i for i, (d, o) in enumerate(cases) if src != "str" or is_utf8(d)]
+        sub = [(cases[i][0], cases[i][1].s()) for i in idx]
+        base = RP.parse_batch(sub, src, "value", fast)
+        n += len(sub)
+        for api in ("iter", "diter", "piter", "value_ee", "datum_ee", "datum"):
+            got = RP.parse_batch(sub, src, api, fast)
+            n += len(sub)
+            for i, a, b in zip(idx, base, got):
+                if a != b:
+                    d, o = cases[i]
+                    bad.append({"input_hex": d.hex(), "input": d.decode("latin-1"), "opts": o.s(), "src": src, "api": api, "fast": fast,
+                                "expected": _short(a), "observed": _short(b), "why": "iterating with `%s` differs from the plain next_value loop" % api})
+                    return n, bad
+    return n, bad
+
+
 def run_domain(name, fast=True):
     """cached per process: -> (cases, discrepancies)"""
     key = (name, fast)
     if key not in _CACHE:
         if name == "print":
             _CACHE[key] = check_print(fast)
-        elif name in ("serde", "printcheck", "alist"):
-            cmd = {"serde": "serdecheck", "printcheck": "printcheck", "alist": "alistcheck"}[name]
+        elif name == "spans":
+            _CACHE[key] = check_spans(fast)
+        elif name == "iteration":
+            _CACHE[key] = check_iteration(fast)
+        elif name == "locations":
+            _CACHE[key] = check_locations(fast)
+        elif name in ("serde", "printcheck", "alist", "conswalk"):
+            cmd = {"serde": "serdecheck", "printcheck": "printcheck", "alist": "alistcheck", "conswalk": "conscheck"}[name]
             r = RP.run_cmd([cmd], fast=True, timeout=600)
             _CACHE[key] = (r.get("cases", 0), [{"kind": "corpus", "cmd": cmd, "what": b} for b in r.get("bad", [])])
         elif name == "value_vs_datum":
